@@ -15,7 +15,7 @@
    pre-assignment; `zr` = RISC-V zero rule on/off (off = x86). *)
 From Coq Require Import ZArith List Bool.
 From XV Require Import C19.Model C19.ProofsSpec C19.ProofsAlloc C19.ProofsOp C19.ProofsStep C19.ProofsMain
-                       C19.ProofsFunc C19.ProofsRefute C19.ProofsLoop C19.Enc.
+                       C19.ProofsFunc C19.ProofsRefute C19.ProofsLoop C19.ProofsLoop2 C19.ProofsLoopEx C19.Enc.
 Import ListNotations.
 Local Open Scope Z_scope.
 
@@ -292,3 +292,62 @@ Theorem C19_loop_rebase_partial : forall c t0 (FR FR' : value -> Z -> Prop) gv a
   Inv c (rebased t0 gv a) FR' L E M a.
 Proof. exact rebase. Qed.
 Print Assumptions C19_loop_rebase_partial.
+
+(* ------------------------------------------------------------------------------------------------ *)
+(* riscv_scf.for, END TO END: a function  pre ; riscv_scf.for f ; post  with one loop (one nesting level)
+   and no pre-assigned register.  Liveness is the straight-line liveness of the virtual block
+       virt pre f post = pre ++ H :: body ++ Y :: post          (C19/ProofsLoop2.v)
+   whose pseudo-operation H (loop header) reads lb, ub, step, ties each iter operand to its carried block
+   argument and defines the induction variable, and whose pseudo-operation Y (back edge / exit) reads the
+   induction variable, the body's live-ins, ub and step -- so all of these are live throughout the body,
+   which is the fixed point of loop liveness over the back edge -- and ties each yield operand to its result.
+   `tconn` = connected by in/out ties, the H / Y ties and the back-edge ties (block argument ~ yield operand).
+   Hypotheses: SSA and the in/out contract on the virtual block (this includes: an iter operand dies at the
+   loop, (b)); the loop-carried groups do not overlap, (a); values of the body are not used after the loop;
+   the induction variable, the live-ins and lb/ub/step are not members of a loop-carried group (so every
+   yield operand is a value of its own -- (c); this excludes `yield %iv`, the recorded finding C19-kf-3);
+   values tied into one register are never live together (the satisfiability of the input's own ties).
+   Conclusion: after a successful allocate_func every value live at any point -- before, inside (at every
+   body point, at the loop start and at the loop end) or after the loop -- has a register, and two different
+   values live at the same point share a register only if it is `zero` (with the zero rule). *)
+Theorem C19_no_interference_loop : forall zr pool allow types pre f post iv cb af,
+  (zr = true -> ~ In 0 pool) -> (forall r, In r pool -> 0 <= r) ->
+  (forall v, ty0 (mkFunc types (map Simple pre ++ For f :: map Simple post)) v = None) ->
+  f_bargs f = iv :: cb ->
+  wf_prog (virt pre f post) -> io_ok (virt pre f post) ->
+  (forall o x y, In o (virt pre f post) -> In (x, y) (s_io o) ->
+     ~ In y (zconsts (mk_cfg zr (mkFunc types (map Simple pre ++ For f :: map Simple post))))) ->
+  length (f_iters f) = length cb /\ length (f_iters f) = length (f_yield f) /\ length (f_iters f) = length (f_res f) ->
+  NoDup (concat (groups f)) ->
+  (forall v, In v (iv :: cb) \/ defined_in (f_body f) v -> ~ used_in post v) ->
+  ~ In iv (concat (groups f)) ->
+  (forall v, In v (live_ins_body f) -> ~ In v (concat (groups f)) /\ v <> iv) ->
+  (forall v, In v (f_lb f :: f_ub f :: step_list f) -> ~ In v (concat (groups f)) /\ v <> iv) ->
+  (forall p s, virt pre f post = p ++ s -> forall v1 v2, live s v1 -> live s v2 -> v1 <> v2 ->
+     tconn pre f post v1 v2 -> False) ->
+  allocate_func zr pool allow (mkFunc types (map Simple pre ++ For f :: map Simple post)) = Ok af ->
+  forall p s, virt pre f post = p ++ s ->
+    (forall v, live s v -> exists r, ty af v = Some r)
+    /\ (forall v1 v2 r, live s v1 -> live s v2 -> v1 <> v2 -> ty af v1 = Some r -> ty af v2 = Some r ->
+          zr = true /\ r = 0).
+Proof. exact func_loop_no_interference. Qed.
+Print Assumptions C19_no_interference_loop.
+
+(* The hypotheses of C19_no_interference_loop are satisfiable by a loop that carries a value:
+     %0 = li ; %1 = li ; %2 = li ; %3 = mv %2
+     %4 = riscv_scf.for %5 = %0 to %1 iter_args(%6 = %3) { %7 = add %6, %5 ; yield %7 } ; return %4
+   every hypothesis is checked, allocation succeeds (iter operand, carried block argument, yield operand and
+   result share t0, the induction variable is in t1) and the theorem gives freedom from interference at
+   every point. *)
+Theorem C19_loop_hypotheses_satisfiable :
+  exists zr pool allow types pre f post af,
+    allocate_func zr pool allow (mkFunc types (map Simple pre ++ For f :: map Simple post)) = Ok af
+    /\ f_iters f <> []
+    /\ ty af 3%nat = Some 5 /\ ty af 6%nat = Some 5 /\ ty af 7%nat = Some 5 /\ ty af 4%nat = Some 5
+    /\ ty af 5%nat = Some 6
+    /\ forall p s, virt pre f post = p ++ s ->
+         (forall v, live s v -> exists r, ty af v = Some r)
+         /\ (forall v1 v2 r, live s v1 -> live s v2 -> v1 <> v2 -> ty af v1 = Some r -> ty af v2 = Some r ->
+               zr = true /\ r = 0).
+Proof. exact loop_hypotheses_satisfiable. Qed.
+Print Assumptions C19_loop_hypotheses_satisfiable.
